@@ -496,23 +496,56 @@ B64_ALPHABET = frozenset(
 
 
 def r189(ctx) -> None:
-    """The run encoder goes through Python's UTF-7 codec and removes the
-    shift markers "+" and "-" around the base64 payload.  "+" is itself a
-    base64 digit, so the markers can only be removed by POSITION (one octet
-    at each end) — a character-class strip also eats payload digits."""
-    R = ctx.rule('R18.9', 'UTF-7 shift markers are removed by position, not '
-                 'by character class', 1)
+    """RFC 3501 5.1.3: only 0x20-0x7e represent themselves; every other
+    character of a run goes into the base64 of its UTF-16BE form.  Two ways
+    to get this wrong that the shape of the code shows:
+      (a) going through Python's utf-7 codec, which (per RFC 2152) writes
+          TAB, CR and LF directly and has optional-direct characters: for
+          such a run there are no shift markers to cut off and the name
+          'x<TAB>y' is reported as b'x&-y', which decodes to 'x&y';
+      (b) removing padding / markers with a strip whose character class
+          contains base64 digits ("+" is one), which eats payload."""
+    R = ctx.rule('R18.9', 'the run encoder is base64 over UTF-16BE of the '
+                 'whole run; nothing is stripped by a class that contains '
+                 'base64 digits', 1)
     m = ctx.proj.module(MODUTF7)
     n = 0
     for f in m.funcs.values():
         encs = [c for c in calls_in(f.node, 'encode') if c.args and
-                const_value(c.args[0])[1] in ('utf-7', 'utf7', 'UTF-7')]
-        if not encs:
+                isinstance(const_value(c.args[0])[1], str)]
+        b64 = [c for c in calls_in(f.node)
+               if call_name(c) in ('b2a_base64', 'b64encode',
+                                   'standard_b64encode')]
+        utf7 = [c for c in encs if const_value(c.args[0])[1].lower().replace(
+            '_', '-') in ('utf-7', 'utf7')]
+        if not b64 and not utf7:
             continue
         n += 1
-        key = f'{f.qualname}: shift markers removed by position'
+        key = f'{f.qualname}: every character of the run is base64-encoded'
+        if utf7:
+            R.fail(f, utf7[0], key,
+                   f'`{txt(utf7[0])}`: the utf-7 codec writes TAB, CR and LF '
+                   f'(and, depending on the version, other characters) '
+                   f'directly instead of into the base64 run; the caller '
+                   f'hands it runs of everything outside 0x20-0x7e, so a '
+                   f'mailbox created as "x<TAB>y" is listed as b"x&-y" '
+                   f'(decodes to "x&y", another name) and "<CR>é" as '
+                   f'b"&+AOk-", which does not decode')
+        else:
+            ok16 = False
+            for c in b64:
+                for v in (resolve_local(f, c.args[0]) if c.args else []):
+                    if isinstance(v, ast.Call) and call_name(v) == 'encode' \
+                            and v.args and str(const_value(v.args[0])[1]) \
+                            .lower().replace('_', '-') in ('utf-16-be',
+                                                           'utf-16be'):
+                        ok16 = True
+            R.check(ok16, f, b64[0], key,
+                    f'the base64 input of `{txt(b64[0])[:50]}` is not '
+                    f'<run>.encode("utf-16-be"): the decoder expects '
+                    f'UTF-16BE code units', 'base64 of UTF-16BE')
+        key2 = f'{f.qualname}: nothing stripped by a class with base64 digits'
         bad = []
-        ops = []
         for x in walk_local(f.node):
             if isinstance(x, ast.Call) and call_name(x) in (
                     'strip', 'lstrip', 'rstrip') and \
@@ -521,29 +554,21 @@ def r189(ctx) -> None:
                 chars = frozenset(v) if ok and isinstance(v, bytes) else None
                 if chars is None or chars & B64_ALPHABET:
                     bad.append(x)
-                ops.append(call_name(x))
-            elif isinstance(x, ast.Call) and call_name(x) in (
-                    'removeprefix', 'removesuffix'):
-                ops.append(call_name(x))
-            elif isinstance(x, ast.Subscript) and \
-                    isinstance(x.slice, ast.Slice):
-                lo = const_value(x.slice.lower)[1] if x.slice.lower else None
-                hi = const_value(x.slice.upper)[1] if x.slice.upper else None
-                ops.append(f'[{lo}:{hi}]')
-        if bad:
-            R.fail(f, bad[0], key,
-                   f'`{txt(bad[0])[-40:]}` strips by character class, and '
-                   f'the class contains base64 digits: a payload that '
-                   f'BEGINS with "+" (every run starting with U+F800..U+FBFF '
-                   f'— CJK compatibility ideographs, the fi/fl ligatures) '
-                   f'loses its first digit; LIST/LSUB/STATUS report '
-                   f'b"&wE-nance" for a mailbox created as b"&+wE-nance", a '
-                   f'spelling that does not decode back to the name')
-        elif '[1:-1]' in ops or {'removeprefix', 'removesuffix'} <= set(ops):
-            R.ok(f, encs[0], key, f'markers removed by {ops}')
-        else:
-            R.undecided(f, encs[0], key, f'marker removal not recognised '
-                        f'(operations seen: {ops})')
+        R.check(not bad, f, bad[0] if bad else f.node, key2,
+                f'`{txt(bad[0])[-40:] if bad else ""}` strips by character '
+                f'class, and the class contains base64 digits: a payload '
+                f'that begins or ends with one of them loses it (every run '
+                f'starting with U+F800..U+FBFF begins with "+"); '
+                f'LIST/LSUB/STATUS then report a spelling that does not '
+                f'decode back to the name', 'only "=" / newline are stripped')
+        rep = any(call_name(c) == 'replace' and len(c.args) == 2
+                  and const_value(c.args[0]) == (True, b'/')
+                  and const_value(c.args[1]) == (True, b',')
+                  for c in calls_in(f.node))
+        R.check(rep, f, f.node, f'{f.qualname}: "/" is written as ","',
+                'the base64 output is not passed through replace(b"/", '
+                'b","): a "/" inside an encoded run is a hierarchy '
+                'delimiter to every reader')
     if n == 0:
-        raise AnchorError('modutf7: no function encodes through the utf-7 '
-                          'codec any more; re-audit R18.9')
+        raise AnchorError('modutf7: no function builds the base64 of a run '
+                          'any more; re-audit R18.9')
